@@ -141,22 +141,78 @@ def fmt_set(ivs):
 
 
 def find_str_to_number(facts):
-    """The shared conversion: the local generic fn → Option<f64> that (transitively) hosts the
-    crate's f64::from_str over a whole string and is called from ≥ 3 places."""
+    """The shared conversion: the local fn string → Option<f64> that (through the crate's own functions) hosts the
+    crate's f64::from_str over a whole string.  When the conversion is split into helpers of the same signature
+    (one of them hosting the float parser) it is the outermost one: the candidate that reaches all the others."""
     cands = []
     for b in facts.fns():
         it = facts.items.get(b.key, {})
-        if b.kind == "fn" and it.get("output") == "std::option::Option<f64>" and len(it.get("inputs", [])) == 1 and not it["inputs"][0].endswith("serde_json::Value") and not it["inputs"][0].endswith("String"):
-            if any((callee_path(t) or "") in (FROM_STR, PARSE) for bb in [b] + [x for x in facts.fns() if x.key.startswith(b.key + "::{closure#")] for _, t in bb.calls()):
-                cands.append(b)
+        if b.kind == "fn" and it.get("output") == "std::option::Option<f64>" and len(it.get("inputs", [])) == 1 and re.search(r"^(&str|[A-Z][A-Za-z0-9]*|impl .*AsRef<str>.*)$", it["inputs"][0]):
+            reach = facts.reach([b.key])
+            hosts = any((callee_path(t) or "") in (FROM_STR, PARSE) for k in reach for bb in [facts.body(k)] if bb is not None for _, t in bb.calls())
+            if hosts:
+                cands.append((b, reach))
+    if len(cands) > 1:
+        keys = {b.key for b, _ in cands}
+        outer = [b for b, reach in cands if keys <= set(reach) | {b.key}]
+        if len(outer) == 1:
+            return outer[0]
     if len(cands) != 1:
         raise Inconclusive("shared string→number conversion not identified (%d candidates)" % len(cands))
-    return cands[0]
+    return cands[0][0]
+
+
+def radix_parser_role(facts, f):
+    """The digit parser of prefixed literals: the function (digits: &str, radix: u32) → Option<f64> the conversion reaches."""
+    out = []
+    for k in sorted(facts.reach([f.key])):
+        it = facts.items.get(k, {})
+        if k != f.key and it.get("output") == "std::option::Option<f64>" and sorted(it.get("inputs", [])) == ["&str", "u32"]:
+            out.append(k)
+    return out
+
+
+def conversion_view(facts, f):
+    """The conversion with its private helpers (other than the digit parser) inlined at their call sites
+    (rules/inline.py): splitting the conversion into helpers changes neither what it computes nor this view."""
+    from . import inline
+    stop = set(radix_parser_role(facts, f))
+    try:
+        cands = set(inline.candidates(facts.path))
+    except Exception:
+        return facts, f
+    helpers = {k for k in facts.reach([f.key]) if k in cands and k != f.key and k not in stop and not any(k.startswith(s_ + "::") for s_ in stop)}
+    # helpers only reached through the digit parser stay where they are
+    through = set()
+    for s_ in stop:
+        through |= set(facts.reach([s_]))
+    direct = set()
+    todo = [f.key]
+    while todo:
+        k = todo.pop()
+        for b in facts.fns():
+            if b.key == k or b.key.startswith(k + "::{closure#"):
+                for _, t in b.calls():
+                    c = callee_of(t)
+                    if c and c.get("local") and c.get("key") in helpers and c["key"] not in direct:
+                        direct.add(c["key"])
+                        todo.append(c["key"])
+    helpers = direct
+    if not helpers:
+        return facts, f
+    already = list((getattr(facts, "inlined", None) or {}).get("helpers", []))
+    try:
+        v = inline.load_view(facts.path, sorted(set(already) | helpers))
+    except Exception:
+        return facts, f
+    fv = v.body(f.key)
+    return (v, fv) if fv is not None else (facts, f)
 
 
 def check(ctx, facts, cfg, clause="A3"):
     """Clauses on the shared string→number conversion. Returns the function body."""
-    f = find_str_to_number(facts)
+    f0 = find_str_to_number(facts)
+    facts, f = conversion_view(facts, f0)
     unit = [f] + [x for x in facts.fns() if x.key.startswith(f.key + "::{closure#")]
     loc = f.where()
     # ---- the parse call(s) of Rust's float grammar
@@ -209,9 +265,14 @@ def check(ctx, facts, cfg, clause="A3"):
                 if e[0] == "agg" and e[1].get("agg") == "Closure":
                     pred = facts.body(e[1]["closure"])
             if pred is not None:
-                cs = charset_of(pred)
+                cs = table_charset(facts, pred)
+                if cs is None:
+                    cs = charset_of(pred)
                 if isinstance(cs, tuple) and cs and cs[0] == "calls":
-                    ctx.fail(clause + ".whitespace-set", "delegates to %s" % cs[1], "the white-space predicate delegates to %s — not the ECMAScript StrWhiteSpaceChar set (e.g. char::is_whitespace also accepts U+0085 and rejects U+FEFF)" % cs[1], where=pred.where(), fn=pred.key)
+                    if re.search(r"^std::char::methods::<impl char>::is_\w+$", cs[1]):
+                        ctx.fail(clause + ".whitespace-set", "delegates to %s" % cs[1], "the white-space predicate delegates to %s — not the ECMAScript StrWhiteSpaceChar set (e.g. char::is_whitespace also accepts U+0085 and rejects U+FEFF)" % cs[1], where=pred.where(), fn=pred.key)
+                    else:
+                        ctx.unread(clause + ".whitespace-set", "predicate (%s)" % cfg, "the white-space predicate is neither a comparison chain nor a scan of a constant table (it calls %s): the set it accepts is not read" % cs[1], where=pred.where(), fn=pred.key)
                 else:
                     want = iv_norm(ES_WS)
                     ctx.check(cs == want, clause + ".whitespace-set", "trimmed characters = ECMAScript WhiteSpace ∪ LineTerminator (%s)" % cfg,
@@ -219,77 +280,105 @@ def check(ctx, facts, cfg, clause="A3"):
                               sample={"accepted": fmt_set(cs)})
         else:
             ctx.fail(clause + ".whitespace-set", "uses %s" % p.rsplit("::", 1)[1], "white space is trimmed with %s (Unicode White_Space), not the ECMAScript StrWhiteSpaceChar set" % p, where=f.where(bi), fn=f.key)
-    # ---- the empty string is 0
-    zero = False
-    for sb in f.reachable():
-        tt = f.blocks[sb]["term"]
-        if tt["k"] == "SwitchInt":
-            e = strip_refs(f.trace(tt["discr"]))
-            if e[0] == "call" and e[1] and re.search(r"PartialEq.*::eq$|::is_empty$", e[1]["path"]):
-                args = [strip_refs(a) for a in e[2]]
-                if e[1]["path"].endswith("is_empty") or any(a[0] == "const" and const_value(a[1]) == "" for a in args):
-                    tg = bool_edge(f, sb, True)
-                    region = f.reachable(tg) - f.reachable(bool_edge(f, sb, False))
-                    with f.restricted(region | {tg}):
-                        r = strip_refs(f.trace(0))
-                    if r[0] == "agg" and r[1].get("variant") == "Some" and strip_refs(r[2][0])[0] == "const" and const_value(strip_refs(r[2][0])[1]) == 0.0:
-                        zero = True
-    ctx.check(zero, clause + ".empty-is-zero", "the empty (or all-white-space) string converts to 0 (%s)" % cfg, "no `== \"\"` edge returning Some(0.0)", where=loc, fn=f.key, nontrivial=True)
-    # ---- Infinity spellings
-    inf = {}
-    for sb in f.reachable():
-        tt = f.blocks[sb]["term"]
-        if tt["k"] == "SwitchInt":
-            e = strip_refs(f.trace(tt["discr"]))
-            if e[0] == "call" and e[1] and re.search(r"PartialEq.*::eq$", e[1]["path"]):
-                for a in e[2]:
+    # ---- decided on the path summaries of the conversion (helpers inlined): which strings are answered directly
+    w = conversion_paths(f)
+    if w is None or any(p.truncated for p in w.paths):
+        for cl_, what in ((".empty-is-zero", "empty string"), (".infinity", "Infinity spellings"), (".radix-prefixes", "radix prefixes")):
+            ctx.unread(clause + cl_, "%s (%s)" % (what, cfg), "the conversion has loops or too many paths to summarise", where=loc, fn=f.key)
+        return f0
+    is_trim = lambda y: y[0] == "call" and y[1] and (y[1].get("path") or "").startswith("core::str::<impl str>::trim")
+
+    def str_test(key, ex):
+        """("empty",) / ("eq", constant) when the atom tests the trimmed string for emptiness / equality with a constant."""
+        if ex is None or key[0] not in ("pure", "cmp"):
+            return None
+        x = strip_refs(ex)
+        if not expr_mentions(x, is_trim):
+            return None
+        if x[0] == "call" and x[1]:
+            pth = x[1]["path"]
+            if pth.endswith("::is_empty") and len(x[2]) == 1:
+                return ("empty",)
+            if re.search(r"PartialEq.*::eq$", pth) and len(x[2]) == 2:
+                for a in x[2]:
                     a = strip_refs(a)
-                    if a[0] == "const" and isinstance(const_value(a[1]), str) and const_value(a[1]) != "":
-                        tg = bool_edge(f, sb, True)
-                        # follow to the assignment of _0
-                        region = f.reachable(tg)
-                        val = None
-                        cur = tg
-                        for _ in range(6):
-                            for s in f.blocks[cur]["stmts"]:
-                                if s["k"] == "Assign" and s["place"]["local"] == 0 and s["rv"]["k"] == "Aggregate" and s["rv"].get("variant") == "Some":
-                                    c = op_const(s["rv"]["ops"][0])
-                                    val = const_value(c) if c else None
-                            if val is not None:
-                                break
-                            nx = f.succs(cur)
-                            if len(nx) != 1:
-                                break
-                            cur = nx[0]
-                        inf[const_value(a[1])] = val
+                    if a[0] == "const" and isinstance(const_value(a[1]), str):
+                        return ("empty",) if const_value(a[1]) == "" else ("eq", const_value(a[1]))
+        if x[0] == "binop" and x[1] == "Eq":
+            for a, b in ((x[2], x[3]), (x[3], x[2])):
+                a, b = strip_refs(a), strip_refs(b)
+                if b[0] == "const" and const_value(b[1]) == 0 and a[0] == "call" and a[1] and a[1]["path"].endswith("::len"):
+                    return ("empty",)
+        return None
+
+    def some_const(r):
+        r = strip_refs(r) if r is not None else None
+        if r is not None and r[0] == "agg" and r[1].get("variant") == "Some" and r[2]:
+            v = strip_refs(r[2][0])
+            if v[0] == "const" and isinstance(const_value(v[1]), (int, float)) and not isinstance(const_value(v[1]), bool):
+                return float(const_value(v[1]))
+        return None
+    rad_keys = set(radix_parser_role(facts, f))
+    zero_paths, zero_bad, inf, inf_bad = 0, [], {}, []
+    prefixes, pref_unread, nrad_sites = {}, [], set()
+    for p in w.paths:
+        tests = [(str_test(k, w.exprs.get(k)), v) for k, v in p.order]
+        if any(t == ("empty",) and v is True for t, v in tests):
+            zero_paths += 1
+            if some_const(p.result) != 0.0:
+                zero_bad.append(show_expr(strip_refs(p.result))[:60] if p.result else "?")
+            continue
+        hit = [t[1] for t, v in tests if t and t[0] == "eq" and v is True]
+        if hit:
+            val = some_const(p.result)
+            for k_ in hit:
+                if k_ in inf and inf[k_] != val:
+                    inf_bad.append(k_)
+                inf[k_] = val
+            continue
+        for ev in p.events:
+            c = ev[1]
+            if c and c.get("key") in rad_keys and len(ev[2]) == 2:
+                nrad_sites.add(ev[3])
+                rx = [strip_cast(a) for a in ev[2] if strip_cast(a)[0] == "const" and isinstance(const_value(strip_cast(a)[1]), int) and not isinstance(const_value(strip_cast(a)[1]), bool)]
+                chars = []
+                for k, v in p.order:
+                    if k[0] == "int" and isinstance(v, int) and expr_mentions(w.exprs.get(k) or (), is_trim):
+                        pos = None
+                        ex = w.exprs.get(k)
+
+                        def find(y):
+                            nonlocal pos
+                            if y[0] in ("cindex", "index") and pos is None:
+                                ints = [z for z in y[1:] if isinstance(z, int) and not isinstance(z, bool)]
+                                cs_ = [const_value(strip_refs(z)[1]) for z in y[1:] if isinstance(z, tuple) and strip_refs(z)[0] == "const"]
+                                cand = ints or [z for z in cs_ if isinstance(z, int)]
+                                if cand:
+                                    pos = cand[0]
+                            return False
+                        expr_mentions(ex, find)
+                        chars.append((v, pos))
+                if len(rx) != 1 or len(chars) != 2 or not all(0 < v < 0x110000 for v, _ in chars):
+                    pref_unread.append("radix %s after %s" % ([show_expr(strip_refs(a))[:30] for a in ev[2]], chars))
+                    continue
+                if all(pos is not None for _, pos in chars) and [pos for _, pos in chars] != [0, 1]:
+                    prefixes["@%s:%s" % (chars[0][1], chars[1][1]) + chr(chars[0][0]) + chr(chars[1][0])] = const_value(rx[0][1])
+                    continue
+                prefixes[chr(chars[0][0]) + chr(chars[1][0])] = const_value(rx[0][1])
+    ctx.check(zero_paths >= 1 and not zero_bad, clause + ".empty-is-zero", "the empty (or all-white-space) string converts to 0 (%s)" % cfg,
+              "no emptiness test of the trimmed string" if not zero_paths else "the empty string converts to %s" % zero_bad[:2], where=loc, fn=f.key, nontrivial=True)
     want_inf = {"Infinity": float("inf"), "+Infinity": float("inf"), "-Infinity": float("-inf")}
-    ctx.check(inf == want_inf, clause + ".infinity", "only the spellings Infinity / +Infinity / -Infinity denote infinities (%s)" % cfg,
+    ctx.check(inf == want_inf and not inf_bad, clause + ".infinity", "only the spellings Infinity / +Infinity / -Infinity denote infinities (%s)" % cfg,
               "string constants mapped to numbers: %s" % inf, where=loc, fn=f.key, nontrivial=True, sample={"spellings": {k: str(v) for k, v in inf.items()}})
-    # ---- radix prefixes
-    rad = [(bi, t) for bi, t in f.calls() if callee_of(t) and callee_of(t)["local"] and len(t["args"]) == 2 and f.local_ty(t["args"][1]["place"]["local"]) == "u32"] if True else []
-    ctx.check(len(rad) == 1, clause + ".radix-call", "prefixed integer literals are handed to one radix parser (%s)" % cfg, "%d candidates" % len(rad), where=loc, fn=f.key)
-    for bi, t in rad:
-        vs = PN.value_set(facts, f, f.trace(t["args"][1]))
-        if vs is None:
-            ctx.unread(clause + ".radix-values", "radix (%s)" % cfg, "the radix handed to the digit parser is not a set of constants the rule can read", where=f.where(bi), fn=f.key)
-        else:
-            ctx.check(vs == {16, 8, 2}, clause + ".radix-values", "radix ∈ {16, 8, 2} (%s)" % cfg, "radix values: %s" % (sorted(vs) if vs else vs), where=f.where(bi), fn=f.key, nontrivial=True)
-        # prefix characters: the char switches that precede it
-        chars = {}
-        for sb in f.reachable():
-            tt = f.blocks[sb]["term"]
-            if tt["k"] == "SwitchInt" and tt.get("dty") == "char":
-                for v, tg in tt["arms"]:
-                    rv = None
-                    for s in f.blocks[tg]["stmts"]:
-                        if s["k"] == "Assign" and s["rv"]["k"] == "Aggregate" and s["rv"].get("variant") == "Some":
-                            c = op_const(s["rv"]["ops"][0])
-                            rv = const_value(c) if c else None
-                    chars[chr(int(v))] = rv
-        want = {"0": None, "x": 16, "X": 16, "o": 8, "O": 8, "b": 2, "B": 2}
-        radix_parser(ctx, facts, facts.body(callee_of(t)["key"]), clause, cfg)
-        if not chars:
-            # prefixes not spelled as character matches: a constant table of (prefix, radix) rows?
+    # ---- radix prefixes: every path into the digit parser is taken after two character tests that fix the prefix, with a constant radix
+    rad = [(bi, t) for bi, t in f.calls() if callee_of(t) and callee_of(t).get("key") in rad_keys]
+    ctx.check(len(rad_keys) == 1 and len(rad) >= 1, clause + ".radix-call", "prefixed integer literals are handed to one radix parser (%s)" % cfg, "%d radix parsers, %d call sites" % (len(rad_keys), len(rad)), where=loc, fn=f.key)
+    for rk in sorted(rad_keys):
+        radix_parser(ctx, facts, facts.body(rk), clause, cfg)
+    if rad:
+        bi = rad[0][0]
+        if pref_unread:
+            # the prefixes are not tested character by character: a constant table of (prefix, radix) rows?
             rows = None
             for bi2, t2 in f.calls():
                 if (callee_path(t2) or "").endswith("::strip_prefix") or (callee_path(t2) or "").endswith("::starts_with"):
@@ -304,13 +393,17 @@ def check(ctx, facts, cfg, clause="A3"):
                         a_, b_ = strip_refs(r_[2][0]), strip_refs(r_[2][1])
                         if a_[0] == "const" and b_[0] == "const":
                             tab[const_value(a_[1])] = const_value(b_[1])
-                want_tab = {"0x": 16, "0X": 16, "0o": 8, "0O": 8, "0b": 2, "0B": 2}
-                ctx.check(tab == want_tab, clause + ".radix-prefixes", "0x/0X → 16, 0o/0O → 8, 0b/0B → 2 (%s)" % cfg, "prefix table: %s" % tab, where=f.where(bi), fn=f.key, nontrivial=True, sample={"prefixes": tab})
-            else:
-                ctx.unread(clause + ".radix-prefixes", "prefixes (%s)" % cfg, "the radix prefixes are not spelled as character matches or a constant table", where=f.where(bi), fn=f.key)
+                prefixes, pref_unread = tab, []
+        want_tab = {"0x": 16, "0X": 16, "0o": 8, "0O": 8, "0b": 2, "0B": 2}
+        if pref_unread or not prefixes:
+            vs = PN.value_set(facts, f, f.trace(rad[0][1]["args"][1])) if len(rad[0][1]["args"]) == 2 else None
+            if vs is not None:
+                ctx.check(vs == {16, 8, 2}, clause + ".radix-values", "radix ∈ {16, 8, 2} (%s)" % cfg, "radix values: %s" % sorted(vs), where=f.where(bi), fn=f.key, nontrivial=True)
+            ctx.unread(clause + ".radix-prefixes", "prefixes (%s)" % cfg, "the radix prefixes are not read as two character tests before the digit parser or a constant table (%s)" % "; ".join(pref_unread[:2]), where=f.where(bi), fn=f.key)
         else:
-          ctx.check(chars == want, clause + ".radix-prefixes", "0x/0X → 16, 0o/0O → 8, 0b/0B → 2 (%s)" % cfg, "prefix characters: %s" % chars, where=f.where(bi), fn=f.key, nontrivial=True, sample={"prefixes": {k: v for k, v in chars.items()}})
-    return f
+            ctx.check(set(prefixes.values()) == {16, 8, 2}, clause + ".radix-values", "radix ∈ {16, 8, 2} (%s)" % cfg, "radix values: %s" % sorted(set(prefixes.values())), where=f.where(bi), fn=f.key, nontrivial=True)
+            ctx.check(prefixes == want_tab, clause + ".radix-prefixes", "0x/0X → 16, 0o/0O → 8, 0b/0B → 2 (%s)" % cfg, "prefixes read off the paths into the digit parser: %s" % prefixes, where=f.where(bi), fn=f.key, nontrivial=True, sample={"prefixes": prefixes})
+    return f0
 
 
 def radix_parser(ctx, facts, rp, clause, cfg):
@@ -319,6 +412,24 @@ def radix_parser(ctx, facts, rp, clause, cfg):
     through the integer parser of the standard library and/or a fold acc·radix + digit from 0."""
     if rp is None:
         raise Inconclusive("radix parser body not available")
+    # ---- exactness: the digits are valued by the exact integer parser (one rounding, `as f64`); a floating accumulation
+    # acc·radix + digit rounds at every step once the value passes 2^53 and may end one ulp away from the double
+    # ECMAScript prescribes.  Positive evidence of the defect: f64 arithmetic in the parser and no integer parse at all.
+    runit = [facts.body(k) for k in sorted(facts.reach([rp.key])) if facts.body(k) is not None]
+    has_int_parse = any(re.search(r"^core::num::<impl [ui](64|128|size)>::from_str_radix$", callee_path(t) or "") for b_ in runit for _, t in b_.calls())
+    float_arith = [(b_, bi, si) for b_ in runit for bi, si, st in b_.stmts() if st["k"] == "Assign" and st["rv"]["k"] == "BinaryOp" and st["rv"]["op"] in ("Mul", "Add") and st["rv"].get("opty") in ("f64", "f32")]
+    WIDE = ("u64", "u128", "i64", "i128", "usize", "isize")
+    int_arith = any(re.search(r"^core::num::<impl (u64|u128|i64|i128|usize|isize)>::(checked_|wrapping_|overflowing_|saturating_)?(mul|add)$", callee_path(t) or "") for b_ in runit for _, t in b_.calls()) or \
+        any(st["k"] == "Assign" and st["rv"]["k"] in ("BinaryOp", "CheckedBinaryOp") and st["rv"].get("op") in ("Mul", "Add", "MulWithOverflow", "AddWithOverflow") and st["rv"].get("opty") in WIDE for b_ in runit for bi, si, st in b_.stmts())
+    if has_int_parse:
+        ctx.ok(clause + ".radix-exact", "the digits are valued by the exact integer parser (%s)" % cfg, nontrivial=True)
+    elif int_arith:
+        ctx.unread(clause + ".radix-exact", "digit parser (%s)" % cfg, "the digits are accumulated in a wide integer by the parser's own arithmetic (no from_str_radix): whether the double is the exact integer converted once is not read", where=rp.where(), fn=rp.key)
+    elif float_arith:
+        b_, bi, si = float_arith[0]
+        ctx.fail(clause + ".radix-exact", "floating accumulation only (%s)" % cfg, "the digits of a prefixed literal are only accumulated in floating point (acc·radix + digit, rounded at every step): literals with more than 53 significant bits can differ from the correctly rounded double; no exact integer parse (from_str_radix) is made", where=b_.where(bi, si), fn=b_.key)
+    else:
+        ctx.unread(clause + ".radix-exact", "digit parser (%s)" % cfg, "neither an integer parse nor a floating accumulation found in the digit parser", where=rp.where(), fn=rp.key)
     if PN.loops_of(rp) and not any(re.search(r"Iterator(>)?::(all|fold)$", callee_path(t) or "") for b_ in [rp] + [b for b in facts.fns() if b.key.startswith(rp.key + "::{closure#")] for _, t in b_.calls()):
         ctx.unread(clause + ".radix-results", "digit parser (%s)" % cfg, "the digit parser is written with explicit loops: its guards and its valuation are not read (the ban on other digit tests and the radix set still apply)", where=rp.where(), fn=rp.key)
         return
@@ -499,3 +610,170 @@ def closure_alphabet(cb):
             for v, tg in tt["arms"]:
                 out.add(chr(int(v)))
     return out if ok else None
+
+
+# ---------------------------------------------------------------------------------------------------------------------
+# path summaries of the conversion (rules/pathsum.py), with the atoms of stateful calls keyed by call site:
+# `(rest.next(), rest.next())` are two different characters although both are spelled `next(&mut rest)`
+# ---------------------------------------------------------------------------------------------------------------------
+from . import pathsum as _PS      # noqa: E402
+
+STATEFUL = re.compile(r"::(next|next_back|nth|pop|pop_front|pop_back)$")
+
+
+class SiteWalker(_PS.Walker):
+    def classify(self, e, t):
+        out = _PS.Walker.classify(self, e, t)
+        sites = []
+
+        def find(x):
+            if x[0] == "call" and x[1] and STATEFUL.search(x[1].get("path") or "") and len(x) > 3:
+                sites.append(x[3])
+            return False
+        expr_mentions(e, find)
+        if not sites:
+            return out
+        tag = ("sites",) + tuple(sorted(set(sites)))
+        res = []
+        for (bb, key, val) in out:
+            if key is not None:
+                k2 = tuple(key) + (tag,)
+                if key in self.exprs:
+                    self.exprs[k2] = self.exprs[key]
+                key = k2
+            res.append((bb, key, val))
+        return res
+
+
+def conversion_paths(f, max_paths=4000):
+    w = SiteWalker(f, max_paths=max_paths)
+    if w.overflow or not w.paths:
+        return None
+    return w
+
+
+def _table_rows(facts, it):
+    """Rows of the constant array behind `TABLE.iter()` / `&TABLE` (expressions), or None."""
+    it = strip_refs(it)
+    hops = 0
+    while it[0] == "call" and it[1] and re.search(r"(::iter|::into_iter|IntoIterator>::into_iter|Deref>::deref|::as_slice|::copied|::cloned)$", it[1]["path"]) and it[2] and hops < 6:
+        it = strip_refs(it[2][0])
+        hops += 1
+    while it[0] == "cast" and str(it[1]).startswith("PointerCoercion"):
+        it = strip_refs(it[2])
+    arr = None
+    if it[0] == "const" and it[1].get("item"):
+        cb = facts.body(it[1]["item"])
+        if cb is not None:
+            arr = strip_refs(cb.trace(0))
+    elif it[0] == "agg":
+        arr = it
+    while arr is not None and arr[0] == "cast" and str(arr[1]).startswith("PointerCoercion"):
+        arr = strip_refs(arr[2])
+    if arr is not None and arr[0] == "agg" and arr[1].get("agg") == "Array":
+        return [strip_refs(r) for r in arr[2]]
+    return None
+
+
+def table_charset(facts, pred):
+    """The set accepted by a predicate that scans a constant table: `TABLE.iter().any(|&(lo, hi)| lo <= c && c <= hi)`
+    (any comparison chain over the row's fields is read, by interval evaluation of the closure's path summaries per
+    row) or `TABLE.contains(&c)`.  None when the predicate is not of that kind."""
+    r = strip_refs(pred.trace(0))
+    if not (r[0] == "call" and r[1]):
+        return None
+    pth = r[1]["path"]
+    if pth.endswith("::contains") and len(r[2]) == 2 and strip_refs(r[2][1]) == ("arg", 1):
+        rows = _table_rows(facts, r[2][0])
+        if rows is None:
+            return None
+        out = []
+        for x in rows:
+            if not (x[0] == "const" and isinstance(const_value(x[1]), str) and len(const_value(x[1])) == 1):
+                return None
+            out.append((ord(const_value(x[1])), ord(const_value(x[1]))))
+        return iv_norm(out)
+    if not (re.search(r"Iterator(>)?::any$", pth) and len(r[2]) == 2):
+        return None
+    rows = _table_rows(facts, r[2][0])
+    clo = strip_refs(r[2][1])
+    if rows is None or not (clo[0] == "agg" and clo[1].get("closure")):
+        return None
+    ups = [strip_refs(u) for u in clo[2]]
+    cb = facts.body(clo[1]["closure"])
+    if cb is None or any(True for _ in cb.calls()):
+        return None
+    w = _PS.summarize(cb, max_paths=500)
+    if w.overflow or any(p.truncated for p in w.paths):
+        return None
+
+    def cp(x):
+        v = const_value(x[1]) if x[0] == "const" else None
+        if isinstance(v, str) and len(v) == 1:
+            return ord(v)
+        return v if isinstance(v, int) and not isinstance(v, bool) else None
+
+    def term(x, row):
+        """("c",) the character tested | ("k", code point)"""
+        x = strip_refs(x)
+        while x[0] == "cast":
+            x = strip_refs(x[2])
+        if x[0] == "const":
+            return ("k", cp(x)) if cp(x) is not None else None
+        if x[0] == "field" and isinstance(x[2], int):
+            base = strip_refs(x[1])
+            if base == ("arg", 1) and x[2] < len(ups) and ups[x[2]] == ("arg", 1):
+                return ("c",)
+            if base == ("arg", 2):
+                if row[0] == "agg" and x[2] < len(row[2]):
+                    y = strip_refs(row[2][x[2]])
+                    return ("k", cp(y)) if y[0] == "const" and cp(y) is not None else None
+        if x == ("arg", 2) and row[0] == "const":
+            return ("k", cp(row)) if cp(row) is not None else None
+        return None
+
+    def constrain(ivs, x, truth, row):
+        """ivs restricted to the characters for which the comparison x has the given truth; None = not read."""
+        x = strip_refs(x)
+        if x[0] == "const" and isinstance(const_value(x[1]), bool):
+            return ivs if const_value(x[1]) == truth else []
+        if x[0] == "unop" and x[1] == "Not":
+            return constrain(ivs, x[2], not truth, row)
+        if x[0] != "binop" or x[1] not in ("Le", "Lt", "Ge", "Gt", "Eq", "Ne"):
+            return None
+        a, b = term(x[2], row), term(x[3], row)
+        op = x[1]
+        if a is None or b is None:
+            return None
+        if a[0] == "k" and b[0] == "c":
+            a, b = b, a
+            op = {"Le": "Ge", "Lt": "Gt", "Ge": "Le", "Gt": "Lt", "Eq": "Eq", "Ne": "Ne"}[op]
+        if not (a[0] == "c" and b[0] == "k"):
+            return None
+        k = b[1]
+        yes = {"Le": [(0, k)], "Lt": [(0, k - 1)], "Ge": [(k, MAXC)], "Gt": [(k + 1, MAXC)], "Eq": [(k, k)], "Ne": [(0, k - 1), (k + 1, MAXC)]}[op]
+        no = {"Le": [(k + 1, MAXC)], "Lt": [(k, MAXC)], "Ge": [(0, k - 1)], "Gt": [(0, k)], "Eq": [(0, k - 1), (k + 1, MAXC)], "Ne": [(k, k)]}[op]
+        sel = yes if truth else no
+        out = []
+        for lo, hi in sel:
+            out.extend(iv_and(ivs, lo, hi))
+        return iv_norm(out)
+    acc = []
+    for row in rows:
+        for p in w.paths:
+            ivs = [(0, MAXC)]
+            for k, v in p.order:
+                ex = w.exprs.get(k)
+                if ex is None or not isinstance(v, bool):
+                    return None
+                ivs = constrain(ivs, ex, v, row)
+                if ivs is None:
+                    return None
+            res = strip_refs(p.result) if p.result is not None else None
+            if res is None:
+                return None
+            ivs = constrain(ivs, res, True, row)
+            if ivs is None:
+                return None
+            acc.extend(ivs)
+    return iv_norm(acc)
